@@ -117,6 +117,12 @@ func lockScenario(nProcs int, withCrash bool) {
 		_ = os.WriteFile(lockPath, []byte("500"), 0644)
 		alive[500], foreign[500] = true, true
 		foreignHolder = true
+		// ... possibly a long-running one: the lock file is as old as its build (a lock is its holder's for
+		// as long as the holder lives)
+		if flag("holder_has_been_running_for_hours") {
+			old := time.Now().Add(-7 * time.Hour)
+			_ = os.Chtimes(lockPath, old, old)
+		}
 	case 1:
 		_ = os.WriteFile(lockPath, nil, 0644) // empty (a dead process that never wrote its PID)
 	case 2:
